@@ -151,10 +151,12 @@ def reference_einsum(m):
         labels[ti][j] = l
     free = []  # result collection letters, leftmost first
     for k, n in enumerate(m.nodes):
-        f = n.free_indices
+        # the collection axes of the node (in front for freshly built tensors, anywhere for tensors that came out of an indexing expression)
+        fa = sorted(set(range(n.rank)) - set(n._covariant_indices) - set(n._contravariant_indices))
+        f = len(fa)
         # align from the right
         for pos in range(f):
-            axis = f - 1 - pos  # pos-th collection axis counted from the right
+            axis = fa[f - 1 - pos]  # pos-th collection axis counted from the right
             if pos < len(free):
                 labels[k][axis] = free[len(free) - 1 - pos]
             else:
@@ -485,6 +487,19 @@ def g_special_programs(ctx, rng, i):
         small = Tensor(gen.coords(rng, (2, 2), 3, "int"), covariant=[int(rng.integers(0, 2))])
         t.tensor_product(small)
         small.tensor_product(t)
+        # nodes whose collection axis is not the leading one (what t[:, None, :] or t[:, [0, 1]] returns)
+        base = Tensor(gen.coords(rng, (2, 2), 3, "int"), covariant=[0])
+        b3 = Tensor(gen.coords(rng, (2, 3, 2), 3, "int"), covariant=[0, 2])
+        w2 = Tensor(gen.coords(rng, (2,), 3, "int"), covariant=False)
+        for tn in (base[:, None, :], base[:, [0, 1, 1]], b3[:, [0, 2, 1, 1]], b3[:, None], base[None][:, :, None]):
+            dd = TensorDiagram()
+            dd.add_node(tn)
+            for step in (lambda: dd.calculate(), lambda: TensorDiagram((tn, w2)).calculate(),
+                         lambda: TensorDiagram((tn, w2), (tn, Tensor(gen.coords(rng, (2,), 3, "int"), covariant=False))).calculate()):
+                try:
+                    step()
+                except Exception:  # noqa: BLE001
+                    pass  # judged by the monitor
         # a rejected edge leaves the diagram as it was: the next evaluation is that of the diagram before the rejected call
         m = Tensor(gen.coords(rng, (2, 3), 3, "int"), covariant=[0])
         v3 = Tensor(gen.coords(rng, (3,), 3, "int"), covariant=False)
